@@ -142,6 +142,44 @@ def feeder_case(args):
         sc.close()
 
 
+def sink_case(args):
+    """what the sink does with what it receives: several streamed items that nobody consumes (dangling, or their consumer cut
+    off by RunTo) arrive at the sink one after the other, beside the regular outputs of other processes; the sink drains each
+    FIFO in a goroutine of its own while it goes on receiving"""
+    seed, i = args
+    rng = random.Random(seed * 373587923 + i)
+    sp = t3.Spec(maxtasks=rng.randint(2, 5), bufsize=rng.choice([1, 2, 128]))
+    L = rng.randint(2, 5)
+    paths = ["k%d.txt" % j for j in range(L)]
+    for p in paths:
+        sp.files[p] = ("payload of %s\n" % p) * rng.choice([1, 50, 5000])
+    s = sp.src("src", paths)
+    prod = sp.proc(t3.Proc("prod", kind="cat", ins=[("a", [(s, "out")])], outs=[("o", "{i:a}.stream"), ("o2", "{i:a}.reg")], stream_outs=["o"]))
+    sp.proc(t3.Proc("other", kind="cattok", ins=[("a", [(s, "out")])], outs=[("o", "{i:a}.other")]))
+    if i % 2:
+        sp.proc(t3.Proc("cons", kind="cat", ins=[("a", [(prod, "o")])], outs=[("o", "{i:a|basename}.cons")]))
+        sp.runto = [prod]
+        sp.runto_mode = rng.choice(["N", "R", "P"])
+    sp.max += L
+    sc = t3.Scratch()
+    try:
+        sc.plant(sp.files)
+        quiet = rng.random() < 0.5
+        impl = t3.run_impl(sc, sp, binary="wfrun_race", timeout=120, env={"GORACE": "halt_on_error=0 exitcode=66"}, hooks_on=not quiet)
+        problems = []
+        if "DATA RACE" in impl["stderr"] or impl["rc"] == 66:
+            i0 = impl["stderr"].find("WARNING: DATA RACE")
+            problems.append(("data-race", "the Go race detector reports a data race: " + impl["stderr"][i0:i0 + 1500]))
+        elif impl["timed_out"]:
+            problems.append(("hang", "race-built run did not terminate"))
+        elif impl["rc"] != 0:
+            problems.append(("unexpected-failure", "rc=%s %s" % (impl["rc"], impl["stderr"][-300:])))
+        return {"spec": sp.text(), "bufsize": sp.bufsize, "problems": problems, "ntasks": len(sp.nodes), "rc": impl["rc"], "stderr": impl["stderr"][-200:], "yield": None,
+                "wall": impl["wall"], "kind": "unconsumed-streams-at-the-sink" + ("/hooks-off" if quiet else "")}
+    finally:
+        sc.close()
+
+
 def run(rep, tier, seed):
     proved = vlib.prove(rep, MODULE, THEOREMS)
     out = vlib.build_go(race=True)
@@ -152,10 +190,11 @@ def run(rep, tier, seed):
     results = t3.run_many(case, [(seed, i) for i in range(n)], workers=8)
     results += t3.run_many(ks.ks_case, [(seed, i, ("race",)) for i in range(n // 3)], workers=8)
     results += t3.run_many(feeder_case, [(seed, i) for i in range(n // 2)], workers=8)
+    results += t3.run_many(sink_case, [(seed, i) for i in range(n // 4)], workers=8)
     t3.report_t3(rep, MODULE, proved, results, "lock discipline on the regenerated skeletons / race-detector runs")
     rep.cov["evaluations"] = len(results)
     rep.cov["distinct_nontrivial"] = len({r["spec"] for r in results})
-    rep.cov["rule"] = "workflows built with `go build -race -tags verif`: fan-out of one out-port to several consumers incl. a tagging component (MapToTags) and sibling outputs, tagging on a shared source plus group-by-tag concatenation, fan-in with multi-core tasks and parameter feeders, sub-streams + streaming + chains, sibling consumers whose output patterns use path modifiers / default names / parameter feeders, a tagging component beside a Concatenator on one out-port, one sub-stream carrier fanned out to several joining processes, one out-port fanned out to several Go-function consumers that read the shared IP with FileIP.Read, chains of processes with FromStr parameter feeders run with RunTo; in half of the runs the hooks are inactive (they take no lock then, so they cannot hide a race), in a quarter seeded delays at the hook points; a DATA RACE report (exit 66) is a failing input; the race detector is search, not proof; every case is distinct and non-trivial"
+    rep.cov["rule"] = "workflows built with `go build -race -tags verif`: fan-out of one out-port to several consumers incl. a tagging component (MapToTags) and sibling outputs, tagging on a shared source plus group-by-tag concatenation, fan-in with multi-core tasks and parameter feeders, sub-streams + streaming + chains, sibling consumers whose output patterns use path modifiers / default names / parameter feeders, a tagging component beside a Concatenator on one out-port, one sub-stream carrier fanned out to several joining processes, one out-port fanned out to several Go-function consumers that read the shared IP with FileIP.Read, chains of processes with FromStr parameter feeders run with RunTo, several unconsumed streamed items and regular outputs arriving at the sink; in half of the runs the hooks are inactive (they take no lock then, so they cannot hide a race), in a quarter seeded delays at the hook points; a DATA RACE report (exit 66) is a failing input; the race detector is search, not proof; every case is distinct and non-trivial"
     rep.cov["rule"] += "; plus kitchen-sink workflows (tools/ks.py: random workflows decorated with tagging components, sub-streams, Concatenator / FileSplitter, streamed pairs, component parameter feeders, Go-function and multi-core processes, RunTo) judged by the model-free race-detector oracle"
     rep.cov["samples"] = [results[0]["spec"]]
     kinds = {}
